@@ -120,6 +120,22 @@ def handshake_qos2(ctx):
         out.append(Inst("HANDSHAKE-QOS2", "pubrel-after-good-pubrec", guarded, e.site(),
                         "PUBREL enqueue %s dominated by the Continue edge of the `?` over the PUBREC reason check" % ("is" if guarded else "is NOT"),
                         "after a failing PUBREC no PUBREL is ever sent"))
+    # PUBREL is produced only by the QoS 2 branch of publish(), behind the reason check
+    n_src = 0
+    for fn_ in ctx.facts.fns:
+        if not fn_["file"].startswith("src/client/"):
+            continue
+        bb_ = ctx.world.body(fn_["path"])
+        for i, t in bb_.calls(r"(AckTxBuilder::build|Context::ack)$"):
+            args = (t["callee"].get("args") or [])
+            if not any(a.endswith("PubrelReason") for a in args):
+                continue
+            n_src += 1
+            ok_src = bb_.path == pb.path
+            out.append(Inst("HANDSHAKE-QOS2", "pubrel-source:%s" % short_ty(strip_generics(bb_.path).replace("::{closure#0}", "")), ok_src, bb_.site(i),
+                            "a PUBREL is built in %s" % bb_.path, "only ContextHandle::publish (after a PUBREC with reason < 0x80) produces a PUBREL"))
+    if n_src == 0:
+        raise AnchorLost("construction of a PUBREL (AckTxBuilder::<PubrelReason>::build)")
     # (e)
     hm = ctx.outbound_handler()
     sw, arms, otherwise, other_vs, _ = match_arms(hm, CTXMSG)
@@ -395,6 +411,29 @@ def nonzero_at(ctx, body, op, bb, depth=0):
     return r
 
 
+def identity_of_rmw(ctx, body, op, depth=0):
+    """Is the operand the unmodified result of an atomic read-modify-write (possibly returned by a local helper)?"""
+    o = body.origin(op, through_calls=False)
+    if o[0] == "call":
+        nm = callee_name(o[2]) or ""
+        if re.search(r"atomic::Atomic\w*::fetch_(add|sub)$", nm):
+            return True, "the result of %s" % short_ty(nm)
+        cb, kind = ctx.world.local_callee_body(o[2])
+        if cb is not None and kind == "fn" and depth < 3:
+            rets = _return_operands(cb)
+            res = [identity_of_rmw(ctx, cb, r_op, depth + 1) for r_bb, r_op in rets]
+            if rets and all(r[0] for r in res):
+                return True, "returned unchanged by %s (%s)" % (short_ty(cb.path), res[0][1])
+            bad = [r[1] for r in res if not r[0]]
+            return False, "transformed inside %s: %s" % (short_ty(cb.path), bad[0] if bad else "no return value found")
+        return False, "the result of %s applied to the counter value" % short_ty(nm)
+    if o[0] == "rv":
+        return False, "computed with `%s` from the counter value" % o[2]["rv"].get("op", o[2]["rv"]["k"])
+    if o[0] == "place" and not o[1]["p"] and len(body.whole_defs(o[1]["l"])) == 0:
+        return False, "a parameter"
+    return False, "not recognisable as the counter value (%s)" % o[0]
+
+
 def _return_operands(body):
     out = []
     for i in sorted(body.reach):
@@ -443,6 +482,9 @@ def idalloc(ctx):
         out.append(Inst("IDALLOC", "%s:rmw" % k, bool(rmw) and not loads and onctr, body.site(i),
                         "identifier from %s on packet_id=%s%s, separate load/store: %s" % (sorted(set(short_ty(x) for x in rmw)), onctr, " (via %s)" % short_ty(helper.path) if helper else "", loads or "none"),
                         "a single atomic read-modify-write on the shared counter (unique across handle clones)"))
+        inj, why = identity_of_rmw(ctx, body, arg)
+        out.append(Inst("IDALLOC", "%s:injective" % k, inj, body.site(i), "identifier is %s" % why,
+                        "the counter value itself (any arithmetic / clamping on it maps two counter values to one identifier)"))
         nz = nonzero_at(ctx, body, arg, i)
         out.append(Inst("IDALLOC", "%s:nonzero" % k, bool(nz[0]), body.site(i), "argument of packet_identifier(): %s" % nz[1],
                         "provably non-zero: NonZero::try_from(id).unwrap() must never panic (wrap-around after 65535 allocations)"))
